@@ -387,6 +387,7 @@ def evaluate(ctx, c, line, hM, hO, dM):
             fields += ["mret", "lazy"]
         if c["mode"] == "retout":
             fields += ["mret"]
+        fields.append("dwrites")      # sizes of all write() calls to the data temps, spill and every pass (Stream blocks of buffer_size)
         fields.append("spill")        # sizes of the write() calls that spill the sorted blocks (ValidSize of each block)
         if c["mode"] != "steal":
             fields.append("oblocks")  # sizes of the chain blocks the consumer of the sorted output receives
